@@ -9,6 +9,7 @@
  *   retry <rid> tcp|pipe <sid> f|g <script>   (connect to a Failing target / the Good server; the k-th callback on the handle performs script[k]:
  *        f/g = re-submit a connect on the SAME handle, w = uv_write, W = uv_write + re-submit g, s = uv_shutdown, c = uv_close, - = nothing)
  *   uvcb <cid> <sid> inuse|free|twice   (tcp client handle with a prior state: uv_tcp_bind to a port in use (EADDRINUSE deferred) / to a free port / a second uv_tcp_connect while the first is pending)
+ *   ipchup <kinds> <policy> <bufsz> <paylen> <when> <how>   (IPC pipe whose sender hangs up with messages unread; see do_ipchup)
  *   badconnect <cid> tcp|pipe|long|longnt [close]     dblconnect <cid> <cid>     ipc <kinds> <late|imm|N>     wcheck     end
  * Output: one line per API result / callback / observation (see checks/c07_sim.py). */
 #include <uv.h>
@@ -283,6 +284,95 @@ static void do_ipc(const char* kinds, const char* pol) {
   printf("ipcdone sent=%d got=%d wcbs=%d\n", nsent, ngot, nwcb);
 }
 
+/* ---- IPC pipe whose sending side goes away while messages are still unread.
+ * ipchup <kinds> <policy> <bufsz> <paylen> <when> <how>
+ *   kinds : one char per sending write, in order: t|p|u = uv_write2 carrying that kind of handle, '-' = plain uv_write
+ *   policy: imm (claim everything pending inside the read callback) | late (claim only at the end, after EOF) |
+ *           N (one claim inside every N-th read callback) | pause (imm + uv_read_stop in the callback, restarted next iteration)
+ *   bufsz : size of the buffer alloc_cb hands out (1 = always filled ... 65536 = every read is short)
+ *   paylen: bytes per sending write
+ *   when  : the sender hangs up before the receiver starts reading (0) or at the end of its <when>-th read callback
+ *   how   : c = uv_close(sender) (receiver polls POLLIN|POLLHUP) | s = uv_shutdown(sender) (read() == 0, no POLLHUP) |
+ *           d = uv_shutdown(receiver) first, then uv_shutdown(sender) (POLLHUP with both handles open) | n = never */
+static int h_bufsz, h_paylen, h_when, h_how, h_hung, h_eof, h_paused, h_reads, h_lastpc, h_bad, h_nmsg, h_handles_ok, h_wcbs, h_werr;
+static size_t h_bytes; static char h_kinds[80]; static uv_shutdown_t h_shreq, h_shreq2; static int h_shcbs;
+static void h_shcb(uv_shutdown_t* r, int status) { h_shcbs++; if (status) printf("hshcb status=%d\n", status); }
+static void h_hangup(void) {
+  if (h_hung || h_how == 'n') return;
+  h_hung = 1;
+  if (h_how == 'c') uv_close((uv_handle_t*) &ipc_tx, NULL);
+  else {
+    if (h_how == 'd') printf("hshutrx r=%d\n", uv_shutdown(&h_shreq2, (uv_stream_t*) &ipc_rx, h_shcb));
+    printf("hshut r=%d\n", uv_shutdown(&h_shreq, (uv_stream_t*) &ipc_tx, h_shcb));
+  }
+  printf("hangup how=%c reads=%d bytes=%zu\n", h_how, h_reads, h_bytes);
+}
+static void h_alloc(uv_handle_t* h, size_t n, uv_buf_t* b) { static char buf[65536]; *b = uv_buf_init(buf, h_bufsz); }
+static void h_read(uv_stream_t* s, ssize_t n, const uv_buf_t* b) {
+  ssize_t i; int pc;
+  if (n == UV_EOF) { h_eof++; printf("heof reads=%d bytes=%zu pc=%d\n", h_reads, h_bytes, uv_pipe_pending_count(&ipc_rx)); return; }
+  if (n < 0) { printf("hread err=%d\n", (int) n); return; }
+  if (n == 0) return;
+  h_reads++;
+  for (i = 0; i < n; i++, h_bytes++) if (b->base[i] != (char) ('a' + (h_bytes / h_paylen) % 26)) h_bad++;
+  pc = uv_pipe_pending_count(&ipc_rx);
+  printf("hread n=%d got=%zd bytes=%zu new=%d pc=%d type=%s\n", h_reads, n, h_bytes, pc - h_lastpc, pc, tyname(uv_pipe_pending_type(&ipc_rx)));
+  if (ipc_policy == 0) { while (uv_pipe_pending_count(&ipc_rx) > 0) ipc_take(); }
+  else if (ipc_policy > 0 && h_reads % ipc_policy == 0 && pc > 0) ipc_take();
+  h_lastpc = uv_pipe_pending_count(&ipc_rx);
+  if (h_paused >= 0) { uv_read_stop(s); h_paused = 1; }
+  if (h_when > 0 && h_reads == h_when) h_hangup();
+}
+static void h_wcb(uv_write_t* r, int status) {
+  int i = (int) (r - wreqs);
+  h_wcbs++;
+  if (status) { h_werr++; printf("hwcb %d status=%d\n", i, status); }
+  else if (h_kinds[i] != '-') h_handles_ok++;
+}
+static void do_ipchup(const char* kinds, const char* pol, int bufsz, int paylen, int when, int how) {
+  int sv[2], i, quiet = 0; static char* bufs[64]; size_t total;
+  socketpair(AF_UNIX, SOCK_STREAM, 0, sv);
+  uv_pipe_init(loop, &ipc_tx, 1); uv_pipe_open(&ipc_tx, sv[0]);
+  uv_pipe_init(loop, &ipc_rx, 1); uv_pipe_open(&ipc_rx, sv[1]);
+  h_paused = !strcmp(pol, "pause") ? 0 : -1;
+  ipc_policy = !strcmp(pol, "late") ? -1 : (!strcmp(pol, "imm") || h_paused == 0) ? 0 : atoi(pol);
+  h_bufsz = bufsz < 1 ? 1 : bufsz > 65536 ? 65536 : bufsz; h_paylen = paylen < 1 ? 1 : paylen; h_when = when; h_how = how;
+  snprintf(h_kinds, sizeof h_kinds, "%.64s", kinds); h_nmsg = (int) strlen(h_kinds);
+  for (i = 0; i < h_nmsg; i++) {
+    struct sockaddr_in a; uv_handle_t* h = NULL; int fd = -1, r; uv_buf_t buf;
+    uv_ip4_addr("127.0.0.1", 0, &a);
+    if (kinds[i] == 't') { uv_tcp_t* x = malloc(sizeof *x); uv_tcp_init(loop, x); uv_tcp_bind(x, (struct sockaddr*) &a, 0); h = (uv_handle_t*) x; }
+    else if (kinds[i] == 'u') { uv_udp_t* x = malloc(sizeof *x); uv_udp_init(loop, x); uv_udp_bind(x, (struct sockaddr*) &a, 0); h = (uv_handle_t*) x; }
+    else if (kinds[i] == 'p') { int p[2]; uv_pipe_t* x = malloc(sizeof *x); socketpair(AF_UNIX, SOCK_STREAM, 0, p); uv_pipe_init(loop, x, 0); uv_pipe_open(x, p[0]); close(p[1]); h = (uv_handle_t*) x; }
+    else if (kinds[i] != '-') { printf("bad-op\n"); return; }
+    bufs[i] = malloc(h_paylen); memset(bufs[i], 'a' + i % 26, h_paylen); buf = uv_buf_init(bufs[i], h_paylen);
+    if (h) {
+      uv_fileno(h, &fd); sent[nsent] = h; sent_ino[nsent] = fd_ino(fd); sent_kind[nsent] = kinds[i]; nsent++;
+      r = uv_write2(&wreqs[i], (uv_stream_t*) &ipc_tx, &buf, 1, (uv_stream_t*) h, h_wcb);
+    } else r = uv_write(&wreqs[i], (uv_stream_t*) &ipc_tx, &buf, 1, h_wcb);
+    printf("hsend %d kind=%c r=%d\n", i, kinds[i], r);
+  }
+  total = (size_t) h_nmsg * h_paylen;
+  for (i = 0; i < 4; i++) uv_run(loop, UV_RUN_NOWAIT);      /* every write has completed before the receiver starts */
+  printf("hinflight wcbs=%d werr=%d handles=%d\n", h_wcbs, h_werr, h_handles_ok);
+  if (h_when == 0) { h_hangup(); for (i = 0; i < 3; i++) uv_run(loop, UV_RUN_NOWAIT); }
+  printf("hstart r=%d\n", uv_read_start((uv_stream_t*) &ipc_rx, h_alloc, h_read));
+  for (i = 0; i < 600 && !h_eof && quiet < 4; i++) {
+    uv_run(loop, UV_RUN_NOWAIT);
+    if (h_paused == 1 && !h_eof) { h_paused = 0; uv_read_start((uv_stream_t*) &ipc_rx, h_alloc, h_read); }
+    if (h_bytes == total && !h_hung) quiet++;                /* nobody hangs up: stop once everything was read */
+  }
+  printf("hafter reads=%d bytes=%zu total=%zu pc=%d eof=%d hung=%d baddata=%d\n", h_reads, h_bytes, total, uv_pipe_pending_count(&ipc_rx), h_eof, h_hung, h_bad);
+  for (i = 0; i < 200 && uv_pipe_pending_count(&ipc_rx) > 0; i++) ipc_take();      /* unclaimed handles stay claimable after EOF */
+  { uv_pipe_t* x = malloc(sizeof *x); int r; uv_pipe_init(loop, x, 0); r = uv_accept((uv_stream_t*) &ipc_rx, (uv_stream_t*) x); printf("ipcempty r=%d pc=%d type=%s\n", r, uv_pipe_pending_count(&ipc_rx), tyname(uv_pipe_pending_type(&ipc_rx))); uv_close((uv_handle_t*) x, free_cb); }
+  for (i = 0; i < nsent; i++) uv_close(sent[i], free_cb);
+  if (!(h_hung && h_how == 'c')) uv_close((uv_handle_t*) &ipc_tx, NULL);
+  uv_close((uv_handle_t*) &ipc_rx, NULL);
+  for (i = 0; i < 4; i++) uv_run(loop, UV_RUN_NOWAIT);
+  for (i = 0; i < h_nmsg; i++) free(bufs[i]);
+  printf("hupdone handles=%d got=%d wcbs=%d werr=%d eof=%d\n", h_handles_ok, ngot, h_wcbs, h_werr, h_eof);
+}
+
 /* ---- uv_write2 with a handle *and* a payload that needs several syscalls */
 static int big_payload, big_bad; static size_t big_bytes;
 static int tx_head_req(void) {
@@ -491,6 +581,7 @@ int main(void) {
       cli[b].ret = uv_pipe_connect2(&cli[b].req, (uv_pipe_t*) cli[b].h, path, strlen(path), 0, connect_cb);
       printf("dblconnect %d r=%d %d r=%d\n", a, cli[a].ret, b, cli[b].ret);
     } else if (!strcmp(w[0], "ipc") && n == 3) { do_ipc(w[1], w[2]);
+    } else if (!strcmp(w[0], "ipchup") && n == 7) { do_ipchup(w[1], w[2], atoi(w[3]), atoi(w[4]), atoi(w[5]), w[6][0]);
     } else if (!strcmp(w[0], "ipcbig") && n >= 3) { do_ipcbig(w[1], atoi(w[2]), w + 3, n - 3);
     } else if (!strcmp(w[0], "wcheck")) { do_wcheck();
     } else if (!strcmp(w[0], "end")) { break;
